@@ -58,6 +58,11 @@ where
           return;
         }
       }
+      // the subscriber may have ended while it was handed the current value
+      // (a downstream take(1), say): it must not be registered for later values
+      if !s.is_subscribed() {
+        return;
+      }
 
       let sbsc = Arc::new(RwLock::new(None::<Subscription>));
       {
